@@ -2654,8 +2654,10 @@ impl KnowledgeGraph {
         // 2. Remove from metadata
         self.metadata.relations.remove(name);
 
-        // 3. Remove schema
-        self.schema_catalog.remove(name);
+        // 3. Remove schema (and persist the removal: otherwise the schema is back after a restart)
+        if self.schema_catalog.remove(name).is_some() {
+            self.save_schema_catalog()?;
+        }
 
         // 4. Drop any associated rules (ignore error if no rules)
         let _ = self.rule_catalog.drop(name);
